@@ -4,12 +4,14 @@ package checks
 
 import (
 	"fmt"
+	"os"
 	"testing"
 
 	"pgregory.net/rapid"
 
 	"verifharness/drive"
 	"verifharness/gen"
+	"verifharness/indep"
 	"verifharness/spec"
 )
 
@@ -100,6 +102,23 @@ func runVecPlanCase(c planCase) *Violation {
 			return violation(prop, "merge/count", "%s: Count %d, model %d", tag, node.Seg.Count(), want.Count)
 		}
 		if v := vectorSegmentCheck(prop, node.Seg, want, tag); v != nil {
+			return v
+		}
+		// what the merged file records about each vector field (id table, optimisation type, index
+		// bytes) is what later merges and searches start from: it must describe exactly the survivors
+		data, err := os.ReadFile(node.Path)
+		if err != nil {
+			return violation(prop, "merge/no-file", "%s: %v", tag, err)
+		}
+		var f *indep.File
+		if err := drive.Safe(func() error {
+			var e error
+			f, e = indep.Decode(data)
+			return e
+		}); err != nil {
+			return violation(prop, "merge/undecodable", "%s: %v", tag, err)
+		}
+		if v := checkVectorEnvelope(prop, tag, f, want); v != nil {
 			return v
 		}
 	}
